@@ -7,6 +7,12 @@
                                                                init (= h.initstate()), digest after fin; a bit length counts
                                                                the bits of THAT piece (0 = none of it, on a non-empty buffer too)
     hashseqc <alg> | …same steps…                              code<->model only: `digest,padflag,bitcnt,padcnt` after every step
+    hashseqs <alg0>,<alg1>,… | <k> new | <k> <step> | env <name> | …
+                                                               SEVERAL objects in one line: `<k> new` constructs object k (class
+                                                               alg_k), `<k> <step>` is a hashseq step on object k, `env <name>` is
+                                                               library activity on none of them (a no-op for the model: its objects
+                                                               are values, Model.Multi); printed per step as in hashseq; spec = every
+                                                               object's stream answered from ITS OWN steps
     hashcalls <alg> | …same steps, and `call <hex> <bitlen|None>` = h(M,bitlen)…
                                                                ONE object for the whole line: the outcome of every `call` step;
                                                                spec = the standard's digest of each called message alone
@@ -17,6 +23,7 @@
 import Driver.Wire
 import Model.Hash
 import Model.Hmac
+import Model.Multi
 import Spec.Hash
 import Spec.Hmac
 namespace Driver.HashD
@@ -74,24 +81,30 @@ def fmtState (full : Bool) (r : Except Err (List Nat)) (st : PadState) (isFin : 
   if full then s!"{d},{fmtBool st.padflag},{st.bitcnt},{st.padcnt}"
   else if isFin then d else s!"{d},{st.bitcnt}"
 
+/-- one step on the model object: the object afterwards and what the line prints -/
+def stepObj (c : HashCore) (full : Bool) (o : HashObj) : Step → HashObj × String
+  | .preset n =>
+    let o' : HashObj := { o with pad := { o.pad with bitcnt := n } }
+    (o', if full then s!"-,{fmtBool o'.pad.padflag},{o'.pad.bitcnt},{o'.pad.padcnt}" else "-")
+  | .upd m l =>
+    let (o', r) := c.update o m l false
+    (o', fmtState full r o'.pad false)
+  | .init =>
+    let o' := c.initstate
+    (o', if full then s!"-,{fmtBool o'.pad.padflag},{o'.pad.bitcnt},{o'.pad.padcnt}" else s!"-,{o'.pad.bitcnt}")
+  | .fin m l =>
+    let (o', r) := c.update o m l true
+    (o', fmtState full r o'.pad true)
+  | .call m l =>
+    let (o', r) := c.call o m l
+    (o', fmtState full r o'.pad true)
+
 /-- the model object driven through the steps -/
 def modelSeq (c : HashCore) (full : Bool) : HashObj → List Step → List String → List String
   | _, [], acc => acc.reverse
-  | o, .preset n :: rest, acc =>
-    let o' : HashObj := { o with pad := { o.pad with bitcnt := n } }
-    modelSeq c full o' rest ((if full then s!"-,{fmtBool o'.pad.padflag},{o'.pad.bitcnt},{o'.pad.padcnt}" else "-") :: acc)
-  | o, .upd m l :: rest, acc =>
-    let (o', r) := c.update o m l false
-    modelSeq c full o' rest (fmtState full r o'.pad false :: acc)
-  | _, .init :: rest, acc =>
-    let o' := c.initstate
-    modelSeq c full o' rest ((if full then s!"-,{fmtBool o'.pad.padflag},{o'.pad.bitcnt},{o'.pad.padcnt}" else s!"-,{o'.pad.bitcnt}") :: acc)
-  | o, .fin m l :: rest, acc =>
-    let (o', r) := c.update o m l true
-    modelSeq c full o' rest (fmtState full r o'.pad true :: acc)
-  | o, .call m l :: rest, acc =>
-    let (o', r) := c.call o m l
-    modelSeq c full o' rest (fmtState full r o'.pad true :: acc)
+  | o, st :: rest, acc =>
+    let (o', r) := stepObj c full o st
+    modelSeq c full o' rest (r :: acc)
 
 /-- `hashcalls`: the model object threaded through the steps, the outcome of every `call` step -/
 def modelCalls (c : HashCore) : HashObj → List Step → List String → List String
@@ -104,15 +117,25 @@ def modelCalls (c : HashCore) : HashObj → List Step → List String → List S
     let (o', r) := c.call o m l
     modelCalls c o' rest (fmtE fmtBytes r :: acc)
 
-/-- spec side of a streaming line: defined when the line is `[preset n] (upd | init)* fin` with block-aligned pieces and a
-    block-aligned preset; the intermediate values are the serialised chaining values of the standard's iteration.
+/-- spec side of a streaming line: defined when the line is `[preset n] (upd | init | fin init | call init)* fin` with
+    block-aligned pieces and a block-aligned preset; the intermediate values are the serialised chaining values of the
+    standard's iteration.
     A piece given with a bit length L contributes its first L bits (L = 0: nothing, whatever the buffer holds; a
     non-final L must be whole blocks and L ≤ 8|piece|); `init` starts a new message (chaining value and bit count of
-    the standard start again, whatever was fed before); a FINAL piece with L > 8|piece| must be refused (C01). -/
-def specSeq {σ} (h : Spec.MDHash σ) (steps : List Step) : Option (List String) :=
+    the standard start again, whatever was fed, finished, called or refused before — the standard knows nothing of the
+    object's earlier life); a FINAL piece with L > 8|piece| must be refused (C01).  `call` = the digest of its own message.
+    `allowOpen`: a stream that is never finished is answered too (the streams of sibling objects in `hashseqs`). -/
+def specSeq {σ} (h : Spec.MDHash σ) (steps : List Step) (allowOpen : Bool := false) : Option (List String) :=
   let B := 8 * h.blockLen
+  -- the final piece of a message whose whole blocks so far gave `s` after `done` bits
+  let finStr (s : σ) (done : Nat) (m : List Nat) (l : Option Nat) : String :=
+    match l with
+    | none => fmtSpec (h.hashFrom s done (Spec.bytesToBits (toSpecBytes m)))
+    | some l =>
+      -- an explicit bitlen counts the bits of this piece; more bits than the piece holds: refused, whatever was fed before
+      if l ≤ 8 * m.length then fmtSpec (h.hashFrom s done (Spec.takeBits l (toSpecBytes m))) else "ERR"
   let rec go (s : σ) (done : Nat) : List Step → List String → Option (List String)
-    | [], _ => none
+    | [], acc => if allowOpen then some acc.reverse else none
     | .preset _ :: _, _ => none
     | .init :: rest, acc => go h.init 0 rest ("-,0" :: acc)
     | .upd m l :: rest, acc =>
@@ -120,31 +143,72 @@ def specSeq {σ} (h : Spec.MDHash σ) (steps : List Step) : Option (List String)
       if L > 8 * m.length ∨ L % B ≠ 0 then none else
       let s' := h.absorb s (Spec.groups h.blockLen (toSpecBytes (m.take (L / 8))))
       go s' (done + L) rest (s!"{fmtSpec (h.out s')},{done + L}" :: acc)
-    | [.fin m l], acc =>
-      match l with
-      | none => some (fmtSpec (h.hashFrom s done (Spec.bytesToBits (toSpecBytes m))) :: acc).reverse
-      | some l =>
-        -- an explicit bitlen counts the bits of this piece; more bits than the piece holds: refused, whatever was fed before
-        if l ≤ 8 * m.length then some (fmtSpec (h.hashFrom s done (Spec.takeBits l (toSpecBytes m))) :: acc).reverse
-        else some ("ERR" :: acc).reverse
+    | [.fin m l], acc => some (finStr s done m l :: acc).reverse
+    | .fin m l :: .init :: rest, acc => go h.init 0 rest ("-,0" :: finStr s done m l :: acc)
     | .fin _ _ :: _, _ => none
+    | [.call m l], acc => if l = some 0 ∧ !m.isEmpty then none else some (finStr h.init 0 m l :: acc).reverse
+    | .call m l :: .init :: rest, acc =>
+      if l = some 0 ∧ !m.isEmpty then none else go h.init 0 rest ("-,0" :: finStr h.init 0 m l :: acc)
     | .call _ _ :: _, _ => none
   match steps with
   | .preset n :: rest => if n % B ≠ 0 then none else go h.init n rest ["-"]
   | _ => go h.init 0 steps []
 
-def specSeqAlg (a : Spec.Alg) (steps : List Step) : Option (List String) :=
+def specSeqAlg (a : Spec.Alg) (steps : List Step) (allowOpen : Bool := false) : Option (List String) :=
   match a with
-  | .md4 => specSeq Spec.Md4.md steps
-  | .md5 => specSeq Spec.Md5.md steps
-  | .sha0 => specSeq (Spec.Sha1.md 0) steps
-  | .sha1 => specSeq (Spec.Sha1.md 1) steps
-  | .sha224 => specSeq (Spec.Sha2.md256 (Spec.Sha2.stateOf Spec.Sha2.iv224) 28) steps
-  | .sha256 => specSeq (Spec.Sha2.md256 (Spec.Sha2.stateOf Spec.Sha2.iv256) 32) steps
-  | .sha384 => specSeq (Spec.Sha2.md512 (Spec.Sha2.stateOf Spec.Sha2.iv384) 48) steps
-  | .sha512 => specSeq (Spec.Sha2.md512 (Spec.Sha2.stateOf Spec.Sha2.iv512) 64) steps
-  | .sha512_224 => specSeq (Spec.Sha2.md512 (Spec.Sha2.ivT 224) 28) steps
-  | .sha512_256 => specSeq (Spec.Sha2.md512 (Spec.Sha2.ivT 256) 32) steps
+  | .md4 => specSeq Spec.Md4.md steps allowOpen
+  | .md5 => specSeq Spec.Md5.md steps allowOpen
+  | .sha0 => specSeq (Spec.Sha1.md 0) steps allowOpen
+  | .sha1 => specSeq (Spec.Sha1.md 1) steps allowOpen
+  | .sha224 => specSeq (Spec.Sha2.md256 (Spec.Sha2.stateOf Spec.Sha2.iv224) 28) steps allowOpen
+  | .sha256 => specSeq (Spec.Sha2.md256 (Spec.Sha2.stateOf Spec.Sha2.iv256) 32) steps allowOpen
+  | .sha384 => specSeq (Spec.Sha2.md512 (Spec.Sha2.stateOf Spec.Sha2.iv384) 48) steps allowOpen
+  | .sha512 => specSeq (Spec.Sha2.md512 (Spec.Sha2.stateOf Spec.Sha2.iv512) 64) steps allowOpen
+  | .sha512_224 => specSeq (Spec.Sha2.md512 (Spec.Sha2.ivT 224) 28) steps allowOpen
+  | .sha512_256 => specSeq (Spec.Sha2.md512 (Spec.Sha2.ivT 256) 32) steps allowOpen
+
+/-! several objects in one line (`hashseqs`) -/
+
+inductive MOp
+  | new
+  | env
+  | st (s : Step)
+
+/-- `<k> new` / `<k> <step>` / `env <name>`; `env` is addressed to the extra slot `nobj` (the environment) -/
+def parseMStep? (nobj : Nat) : List String → Option (Nat × MOp)
+  | ["env", _] => some (nobj, .env)
+  | [k, "new"] => do let k ← parseNat? k; if k < nobj then pure (k, .new) else none
+  | k :: rest => do
+      let k ← parseNat? k; let s ← parseStep? rest
+      match s with
+      | .preset _ => none
+      | _ => if k < nobj then pure (k, .st s) else none
+  | _ => none
+
+/-- object slot k: `none` before `<k> new`; the constructors end with `self.initstate()`.  The environment slot (no
+    class) ignores everything: library activity on other objects does not touch the values in the other slots. -/
+def stepSlot (cores : List HashCore) (k : Nat) (o : Option HashObj) : MOp → Option HashObj × String
+  | .env => (o, "-")
+  | .new => match cores[k]? with
+    | some c => (some c.initstate, s!"-,{c.initstate.pad.bitcnt}")
+    | none => (o, "?")
+  | .st s => match cores[k]?, o with
+    | some c, some o => let (o', r) := stepObj c false o s; (some o', r)
+    | _, _ => (o, "?")                                     -- a step before `new`: not a line of the protocol
+
+/-- every object's stream answered by the standard from its own steps (`new` starts a message as `init` does), put back
+    in the order of the line -/
+def specMulti (algs : List Spec.Alg) (steps : List (Nat × MOp)) : Option (List String) := do
+  let per ← (algs.zipIdx).mapM fun (a, j) =>
+    specSeqAlg a ((Model.Multi.own j steps).filterMap fun | .new => some .init | .st s => some s | .env => none) true
+  let rec weave (per : List (List String)) : List (Nat × MOp) → List String → Option (List String)
+    | [], acc => some acc.reverse
+    | (_, .env) :: rest, acc => weave per rest ("-" :: acc)
+    | (k, _) :: rest, acc =>
+      match per[k]? with
+      | some (x :: xs) => weave (per.set k xs) rest (x :: acc)
+      | _ => none
+  weave per steps []
 
 /-! HMAC -/
 
@@ -176,6 +240,14 @@ def handle : Handler := fun op args =>
         | .error _ => "ERR"
         | .ok c => ";".intercalate (modelSeq c false c.initstate steps [])
       pure (model, match specSeqAlg sa steps with | some l => ";".intercalate l | none => "-")
+  | "hashseqs", as :: "|" :: rest => do
+      let algs ← (as.splitOn ",").mapM parseAlg?
+      let steps ← (splitBar rest).mapM (parseMStep? algs.length)
+      let model := match (algs.map (·.1)).mapM (·.new) with
+        | .error _ => "ERR"
+        | .ok cores =>
+          ";".intercalate ((Model.Multi.run (stepSlot cores) (List.replicate (algs.length + 1) none) steps).2.map (·.2))
+      pure (model, match specMulti (algs.map (·.2)) steps with | some l => ";".intercalate l | none => "-")
   | "hashseqc", a :: "|" :: rest => do
       let (ma, _) ← parseAlg? a
       let steps ← (splitBar rest).mapM parseStep?
